@@ -115,9 +115,10 @@ class TList(Ty):
 class TDict(Ty):
     kind = "dict"
 
-    def __init__(self, key: Ty, val: Ty):
+    def __init__(self, key: Ty, val: Ty, default: bool = False):
         self.key = key
         self.val = val
+        self.default = default   # collections.defaultdict(dict): a missing key is created with an empty dict on read
 
     def __repr__(self) -> str:
         return f"Dict({self.key!r},{self.val!r})"
@@ -218,7 +219,7 @@ def tuple_sort(items: Sequence[Ty]) -> Any:
 
 def sort_of(t: Ty) -> z3.SortRef:
     k = t.kind
-    if k in ("int", "ref", "enum", "cls", "list", "refu"):
+    if k in ("int", "ref", "enum", "cls", "list", "refu", "dict"):
         return z3.IntSort()
     if k == "bool":
         return z3.BoolSort()
@@ -235,8 +236,6 @@ def sort_of(t: Ty) -> z3.SortRef:
     if k == "union":
         # only Optional[X] with X int-like is stored in containers: encoded by the caller
         raise Unsupported(f"no container sort for {t!r}")
-    if k == "dict":
-        return z3.ArraySort(sort_of(t.key), sort_of(t.val))
     raise Unsupported(f"no sort for type {t!r}")
 
 
@@ -562,17 +561,17 @@ class VList(V):
 
 
 class VDict(V):
-    """Value-semantics map: `term` maps key-sort to value-sort, `dom` says which keys are present."""
+    """A dict object: `ref` is its address; contents (map + domain) live in the executor state's heap."""
 
-    def __init__(self, key: Ty, val: Ty, term: Any, dom: Any):
+    def __init__(self, key: Ty, val: Ty, ref: Any, default: bool = False):
         self.key = key
         self.val = val
-        self.term = term
-        self.dom = dom
-        self.ty = TDict(key, val)
+        self.ref = ref
+        self.default = default
+        self.ty = TDict(key, val, default)
 
     def __repr__(self) -> str:
-        return f"VDict[{self.key!r}->{self.val!r}]"
+        return f"VDict[{self.key!r}->{self.val!r}]@{self.ref}"
 
 
 class VUnion(V):
@@ -728,7 +727,7 @@ def to_term(x: Any, t: Ty) -> Any:
             return s.constructor(0)(*[to_term(v, it) for v, it in zip(x.items, t.items)])
     if k == "dict":
         if isinstance(x, VDict):
-            return x.term
+            return x.ref
     raise Unsupported(f"cannot convert {x!r} to a term of type {t!r}")
 
 
@@ -759,6 +758,8 @@ def from_term(term: Any, t: Ty, ex: Any = None) -> V:
         return VSet(t.elem, term)
     if k == "list":
         return VList(t.elem, t.view, term)
+    if k == "dict":
+        return VDict(t.key, t.val, term, getattr(t, "default", False))
     if k == "cls":
         return VClass(None, term, _resolve_cls(t.base))
     if k == "rec":
